@@ -19,7 +19,7 @@ from typing import Any, Optional
 from vsim import seams
 from vsim.cluster import digest
 from vsim.rng import Rng, sha
-from vsim.world import gen_fix_world, sql_files, world_tree
+from vsim.world import KINDS, gen_fix_world, sql_files, world_tree
 
 ID = "C24"
 LEVEL = "exploration"
@@ -235,7 +235,12 @@ def run_one(ctx: Any, seed: int, tier: str, replay: Optional[dict] = None) -> di
         sc = replay["scenario"]
         hs_a, hs_b = replay["hashseeds"]
     else:
-        world = gen_fix_world(rng.fork("world"), {"size_limits": rng.fork("feat").chance(0.25)})
+        world = gen_fix_world(rng.fork("world"), {
+            "size_limits": rng.fork("feat").chance(0.25),
+            "encodings": ["utf-8", "utf-8", "utf-8", "utf-8", "utf-8-sig", "utf-16-le-bom"],
+            "newlines": ["lf", "lf", "lf", "crlf"],
+            "kinds": KINDS + ["cte_multi"],
+        })
         sc = gen_scenario(rng.fork("scenario"), world)
         pool = ctx.hashseeds(3)
         hr = rng.fork("hashseed")
